@@ -25,9 +25,10 @@ def is_eager(act):
     return act['a'] in NET and bool(act.get('eager'))
 
 
-def predict(role, history):
+def predict(role, history, splits=None):
     """Run the model; returns (groups, model).  Each group: dict(idx, wire, ind, closed, state, artim,
-    transport)."""
+    transport).  splits: {history index of a multi-fragment P-DATA request: number of its fragments that go out
+    before the network actions racing it are seen} (default 1)."""
     m = ulmodel.Model(role)
     m.half = None           # PDU of which the peer has sent only the beginning so far
     now = START
@@ -93,8 +94,10 @@ def predict(role, history):
                     absorb(m.event(2, now, prim=act['pdu']))       # transport connect confirmation
             else:
                 frags = list(act['msg'])
-                absorb(m.event(9, now, prim=frags[0]))
-                m.pending_out = frags[1:]
+                k = max(1, min(len(frags), (splits or {}).get(i, 1)))
+                for frag in frags[:k]:
+                    absorb(m.event(9, now, prim=frag))
+                m.pending_out = frags[k:]
     if cur is not None:
         seal()
     return groups, m
@@ -241,6 +244,35 @@ def _desc(x):
     if isinstance(x, tuple):
         return 'DIMSE(%s)' % type(x[0]).__name__
     return type(x).__name__
+
+
+def racing_sends(history):
+    """Indices of multi-fragment P-DATA requests with a back-to-back network action right behind them."""
+    return [i for i, a in enumerate(history) if a['a'] == 'user' and len(a.get('msg', ())) > 1 and
+            i + 1 < len(history) and is_eager(history[i + 1])]
+
+
+def compare_racing(prop, role, history, pred_groups, sim, obs_groups, case, check_invariants=True):
+    """compare(), except that where network actions RACE a multi-fragment P-DATA request the standard does not say
+    how many of its fragments go out before the provider looks at the network again: the provider is right if it
+    agrees with the model for SOME number (1..n) per racing request."""
+    try:
+        return compare(prop, role, history, pred_groups, sim, obs_groups, case, check_invariants)
+    except Violation as first:
+        racing = racing_sends(history)
+        if not racing or len(racing) > 3:
+            raise
+        import itertools
+        ranges = [range(1, len(history[i]['msg']) + 1) for i in racing]
+        for combo in itertools.product(*ranges):
+            if all(k == 1 for k in combo):
+                continue
+            alt, _ = predict(role, history, dict(zip(racing, combo)))
+            try:
+                return compare(prop, role, history, alt, sim, obs_groups, case, check_invariants)
+            except Violation:
+                continue
+        raise first
 
 
 def compare(prop, role, history, pred_groups, sim, obs_groups, case, check_invariants=True):
